@@ -134,6 +134,30 @@ pub fn check(case: &Case, rec: &mut Rec) -> Option<Failure> {
 }
 
 pub fn generate(r: &mut Runner) {
+
+    // flat and nearly flat windows at "ordinary" decimal prices (668.49, 956.06, 250006172837.839 …): a dispersion written as a
+    // DIFFERENCE of two rounded quantities goes slightly negative there, one written as a sum of absolute terms cannot
+    {
+        let n = if r.tier == Tier::Quick { 6000 } else { 120000 };
+        for i in 0..n {
+            let name = ["MeanAbsoluteDeviation", "StandardDeviation", "BollingerBands"][i % 3];
+            let (_, nm) = ind::arity(name).unwrap();
+            let period = r.rng.range(2, 40);
+            let ms: Vec<f64> = (0..nm).map(|_| 2.0).collect();
+            let decimals = *r.rng.pick(&[100.0, 1000.0, 10.0]);
+            let mag = *r.rng.pick(&[1e3, 1e5, 1e2, 1e12, 1.0]);
+            let level = ((r.rng.unit() * mag * decimals).round() / decimals).max(1.0 / decimals);
+            let mut c = Case::new("C09", "flat-decimal", name, &[period], &ms);
+            for _ in 0..r.rng.below(6) {
+                let x = ((r.rng.unit() * mag * decimals).round() / decimals).max(1.0 / decimals);
+                c.ops.push(Op::Next(x));
+            }
+            for _ in 0..(period + 3) {
+                c.ops.push(Op::Next(level));
+            }
+            r.run(c, true);
+        }
+    }
     let cases = if r.tier == Tier::Quick { 650 } else { 26000 };
     r.log_every = if r.tier == Tier::Quick { 7 } else { 307 };
     let maxlen = if r.tier == Tier::Quick { 500 } else { 4000 };
@@ -252,4 +276,4 @@ fn has_scalar_any_sign(name: &str) -> bool {
     ind::has_next_name(name) && !matches!(name, "TrueRange" | "AverageTrueRange" | "KeltnerChannel")
 }
 
-pub const RULE: &str = "13 indicators x sampled periods to 300 x multipliers {0,0.5,1,2,3,10,1e3,1e6} x finite streams of any sign in 9 regimes, magnitudes 1e-3..1e11 and - every fourth case - tiny magnitudes {1e-9, 1e-17, 1e-20, 1e-300}, a quarter of them engineered for cancellation (values x10^4 then a flat stretch with 1-ulp ripple, as in test_next_floating_point_error); plus, for every indicator and every tiny magnitude, same-sign streams (strictly positive; 30% strictly negative for the scalar-fed any-sign indicators) of 1..200 inputs in walk/flat/plateau/saw/trend/alt regimes, periods 1..4 and sampled to 60, multipliers {0,0.5,2,1e3}, half of them with a reset(); plus boundary periods for the constructors that allocate no window (EMA, ATR, KeltnerChannel, MACD, PPO): each period position in turn takes each of 2^31-1, 2^31, 2^32-1, 2^32, 2^32+1, 2^53-1, 2^53, 2^53+1, 2^63-1, 2^63, usize::MAX-1, usize::MAX (the other positions sampled to 30), streams of 2..60 inputs, the constructor must succeed; checked at every step: SD, MAD >= 0 and not NaN; TR, ATR >= 0 (valid bars); Minimum <= Maximum (twin instance); lower <= average <= upper exactly (BB, KC); CE long <= window max(high), short >= window min(low) exactly; MACD/PPO histogram == line - signal exactly; SMA/WMA within [window min, max] +- tau(t)*M; EMA within [history min, max] +- tau(t)*M (M = largest magnitude fed since reset, so the slack scales with the data). A fifth of the cases contain one or two reset() calls (window, history hull and t restart). Non-trivial = longer than the period.";
+pub const RULE: &str = "flat-decimal stage: 6000 (quick) / 120000 (thorough) cases for MAD, SD, BB: period 2..40, 0..5 moving inputs, then period+3 repetitions of one 1-3-decimal price at magnitudes 1..1e12 (dispersion must stay >= 0 and not NaN at every step); then: 13 indicators x sampled periods to 300 x multipliers {0,0.5,1,2,3,10,1e3,1e6} x finite streams of any sign in 9 regimes, magnitudes 1e-3..1e11 and - every fourth case - tiny magnitudes {1e-9, 1e-17, 1e-20, 1e-300}, a quarter of them engineered for cancellation (values x10^4 then a flat stretch with 1-ulp ripple, as in test_next_floating_point_error); plus, for every indicator and every tiny magnitude, same-sign streams (strictly positive; 30% strictly negative for the scalar-fed any-sign indicators) of 1..200 inputs in walk/flat/plateau/saw/trend/alt regimes, periods 1..4 and sampled to 60, multipliers {0,0.5,2,1e3}, half of them with a reset(); plus boundary periods for the constructors that allocate no window (EMA, ATR, KeltnerChannel, MACD, PPO): each period position in turn takes each of 2^31-1, 2^31, 2^32-1, 2^32, 2^32+1, 2^53-1, 2^53, 2^53+1, 2^63-1, 2^63, usize::MAX-1, usize::MAX (the other positions sampled to 30), streams of 2..60 inputs, the constructor must succeed; checked at every step: SD, MAD >= 0 and not NaN; TR, ATR >= 0 (valid bars); Minimum <= Maximum (twin instance); lower <= average <= upper exactly (BB, KC); CE long <= window max(high), short >= window min(low) exactly; MACD/PPO histogram == line - signal exactly; SMA/WMA within [window min, max] +- tau(t)*M; EMA within [history min, max] +- tau(t)*M (M = largest magnitude fed since reset, so the slack scales with the data). A fifth of the cases contain one or two reset() calls (window, history hull and t restart). Non-trivial = longer than the period.";
